@@ -350,8 +350,10 @@ static ares_status_t ares_split_dns_name(ares_array_t *labels,
     total_len += len;
   }
 
-  /* Can't exceed maximum (unescaped) length */
-  if (ares_array_len(labels) && total_len + ares_array_len(labels) - 1 > 255) {
+  /* Can't exceed the maximum length of a name on the wire, RFC 1035 Section
+   * 2.3.4 / 3.1: 255 octets including the length octet of each label and the
+   * terminating zero length octet of the root */
+  if (total_len + ares_array_len(labels) + 1 > 255) {
     status = ARES_EBADNAME;
     goto done;
   }
@@ -399,6 +401,16 @@ ares_status_t ares_dns_name_write(ares_buf_t *buf, ares_llist_t **list,
   if (list != NULL) {
     off = ares_nameoffset_find(*list, name_copy);
     if (off != NULL && off->name_len != name_len) {
+      /* Only the labels in front of the match are written out (and validated)
+       * below, but the length limit applies to the name as a whole */
+      status = ares_split_dns_name(labels, ARES_FALSE, name_copy);
+      if (status != ARES_SUCCESS) {
+        goto done;
+      }
+      while (ares_array_len(labels) > 0) {
+        ares_dns_name_labels_del_last(labels);
+      }
+
       /* truncate */
       name_len            -= (off->name_len + 1);
       name_copy[name_len]  = 0;
@@ -564,6 +576,7 @@ ares_status_t ares_dns_name_parse(ares_buf_t *buf, char **name,
   ares_status_t status;
   ares_buf_t   *namebuf     = NULL;
   size_t        label_start = ares_buf_get_position(buf);
+  size_t        wire_len    = 1; /* terminating zero length octet */
 
   if (buf == NULL) {
     return ARES_EFORMERR;
@@ -657,6 +670,15 @@ ares_status_t ares_dns_name_parse(ares_buf_t *buf, char **name,
     }
 
     /* New label */
+
+    /* RFC 1035 Section 2.3.4 / 3.1: a name is at most 255 octets, counting the
+     * length octet of each label, no matter how many compression pointers
+     * were followed to assemble it */
+    wire_len += (size_t)c + 1;
+    if (wire_len > 255) {
+      status = ARES_EBADNAME;
+      goto fail;
+    }
 
     /* Labels are separated by periods */
     if (ares_buf_len(namebuf) != 0 && name != NULL) {
